@@ -490,7 +490,8 @@ def do_replay(mod, path):
     build(mod.LEAN_MODULES)
     out = engine.run_one(op, a, res)
     try:
-        engine.compare([(op, a, out)], res)
+        if op.model:
+            engine.compare([(op, a, out)], res)
     except Exception as exc:
         log("replay: driver unavailable: %s" % exc)
     log("replay %s" % op.line(a))
